@@ -8,6 +8,7 @@ Theorems: lean/PPLV/Props/C17.lean (generic algorithm of wrap_assign.hh sound fo
 """
 import collections, concurrent.futures as cf, hashlib, os, shutil
 from fractions import Fraction
+from . import c17_grid
 
 LEVEL = "proof"
 GENERIC = ("C", "N", "BQ", "BZ", "BI", "OQ", "OZ", "PC", "PN")
@@ -304,11 +305,13 @@ def replay(ctx, path):
     """bin/check C17 --replay replays/C17-….json : run the recorded case description on the real library of
     the current tree and judge it again; 1 = it still fails (and is not an open known finding)."""
     import json
+    obj = json.load(open(path))
+    if obj.get("gridwrap"):
+        return c17_grid.replay(ctx, path)      # stage 3: Grid::wrap_assign model tie
     ctx.ensure_ppl()
     drv = ctx.ensure_pplv("pplv_wrap")
     h = ctx.compile_harness("c17_wrap.cc")
     wd = ctx.workdir()
-    obj = json.load(open(path))
     print("property=C17 what=%s" % str(obj.get("what", "-"))[:300])
     desc = obj.get("description")
     if not desc:
@@ -467,6 +470,8 @@ def run(ctx):
 
     for b in broken:
         ctx.violation("proof obligation broken: " + b, {"obligation": b}, found_input=False)
+
+    c17_grid.run(ctx)                          # stage 3: Grid::wrap_assign (model, theorems, equality tie with the real function)
 
     judged = sum(v for k, v in st.items() if k.endswith(("_ok", "_MISMATCH")))
     ctx.cov.update(
